@@ -75,6 +75,8 @@ pub enum Variant {
     /// PagedResults adapter; the server splits the item sequence into pages
     Paged,
     EntriesOnlyPaged,
+    /// chain [PagedResults, EntriesOnly]: the inner adapter ends once per page
+    PagedEntriesOnly,
     /// a user adapter that returns an error of its own when a reference arrives
     FailOnRef,
 }
@@ -109,7 +111,7 @@ pub struct Case {
 
 fn strat(_: &Ctx) -> BoxedStrategy<Case> {
     let item = (prop_oneof![4 => respgen::entry_resp(), 2 => respgen::reference_resp(), 2 => respgen::intermediate_resp()], proptest::option::weighted(0.4, resp_controls(2))).prop_map(|(resp, ctrls)| ItemSpec { resp, ctrls });
-    let variant = prop_oneof![3 => Just(Variant::Direct), 3 => Just(Variant::EntriesOnly), 1 => Just(Variant::Pass), 1 => Just(Variant::PassEntriesOnly), 1 => Just(Variant::EntriesOnlyPass), 2 => Just(Variant::Conv), 2 => Just(Variant::Paged), 2 => Just(Variant::EntriesOnlyPaged), 2 => Just(Variant::FailOnRef)];
+    let variant = prop_oneof![3 => Just(Variant::Direct), 3 => Just(Variant::EntriesOnly), 1 => Just(Variant::Pass), 1 => Just(Variant::PassEntriesOnly), 1 => Just(Variant::EntriesOnlyPass), 2 => Just(Variant::Conv), 2 => Just(Variant::Paged), 2 => Just(Variant::EntriesOnlyPaged), 2 => Just(Variant::PagedEntriesOnly), 2 => Just(Variant::FailOnRef)];
     let call = prop_oneof![5 => Just(CallKind::Next), 2 => Just(CallKind::Finish), 2 => Just(CallKind::State)];
     let script = prop_oneof![
         3 => vec(call, 1..=14),
@@ -124,7 +126,7 @@ fn strat(_: &Ctx) -> BoxedStrategy<Case> {
     ];
     (vec(item, 0..=8), respgen::small_res(), proptest::option::weighted(0.5, resp_controls(2)), variant, script, proptest::option::weighted(0.15, 0u8..9), vec(0u8..9, 0..4), any::<u64>())
         .prop_map(|(items, fin, fin_ctrls, variant, script, cut_after, page_cuts, sched)| {
-            let paged = matches!(variant, Variant::Paged | Variant::EntriesOnlyPaged);
+            let paged = matches!(variant, Variant::Paged | Variant::EntriesOnlyPaged | Variant::PagedEntriesOnly);
             // the final result of a paged search must not carry a second paging control of its own
             let fin_ctrls = if paged { fin_ctrls.map(|v: Vec<RCtl>| v.into_iter().filter(|c| c.oid != crate::props::c16::PAGED_OID).collect()) } else { fin_ctrls };
             Case { items, fin, fin_ctrls, variant, script, cut_after, page_cuts, sched }
@@ -179,8 +181,8 @@ fn page_ends(c: &Case) -> Vec<usize> {
 
 /// Reference state machine (DESIGN.md Appendix B).
 fn model(c: &Case) -> Vec<Ret> {
-    let entries_only = matches!(c.variant, Variant::EntriesOnly | Variant::PassEntriesOnly | Variant::EntriesOnlyPass | Variant::EntriesOnlyPaged);
-    let paged = matches!(c.variant, Variant::Paged | Variant::EntriesOnlyPaged);
+    let entries_only = matches!(c.variant, Variant::EntriesOnly | Variant::PassEntriesOnly | Variant::EntriesOnlyPass | Variant::EntriesOnlyPaged | Variant::PagedEntriesOnly);
+    let paged = matches!(c.variant, Variant::Paged | Variant::EntriesOnlyPaged | Variant::PagedEntriesOnly);
     let avail = if paged {
         // the server closes after serving page k (if that is not the last page): items of pages 0..=k are available
         match (c.cut_after, page_ends(c)) {
@@ -286,7 +288,7 @@ pub fn check(case: &Case, obs: &mut Obs) -> Result<(), Fail> {
         let wire = conn.wire.clone();
         let c2 = c.clone();
         let srv = tokio::spawn(async move {
-            if matches!(c2.variant, Variant::Paged | Variant::EntriesOnlyPaged) {
+            if matches!(c2.variant, Variant::Paged | Variant::EntriesOnlyPaged | Variant::PagedEntriesOnly) {
                 // split the item sequence at the generated cut points and serve it page by page
                 let cuts = page_ends(&c2);
                 let mut start = 0usize;
@@ -368,6 +370,10 @@ pub fn check(case: &Case, obs: &mut Obs) -> Result<(), Fail> {
                             let ad: Vec<Box<dyn Adapter<_, _>>> = vec![Box::new(EntriesOnly::new()), Box::new(ldap3::adapters::PagedResults::new(3))];
                             ldap.streaming_search_with(ad, base, Scope::Subtree, filter, attrs).await
                         }
+                        Variant::PagedEntriesOnly => {
+                            let ad: Vec<Box<dyn Adapter<_, _>>> = vec![Box::new(ldap3::adapters::PagedResults::new(3)), Box::new(EntriesOnly::new())];
+                            ldap.streaming_search_with(ad, base, Scope::Subtree, filter, attrs).await
+                        }
                         Variant::PassEntriesOnly => {
                             let ad: Vec<Box<dyn Adapter<_, _>>> = vec![Box::new(Pass), Box::new(EntriesOnly::new())];
                             ldap.streaming_search_with(ad, base, Scope::Subtree, filter, attrs).await
@@ -434,7 +440,7 @@ pub fn check(case: &Case, obs: &mut Obs) -> Result<(), Fail> {
     }
     let want = model(case);
     ensure!(got.len() == want.len(), "c10:script-length", "{} calls made, {} answered: {:?}", want.len(), got.len(), got.last());
-    let entries_only = matches!(case.variant, Variant::EntriesOnly | Variant::PassEntriesOnly | Variant::EntriesOnlyPass | Variant::EntriesOnlyPaged);
+    let entries_only = matches!(case.variant, Variant::EntriesOnly | Variant::PassEntriesOnly | Variant::EntriesOnlyPass | Variant::EntriesOnlyPaged | Variant::PagedEntriesOnly);
     for (k, (g, w)) in got.iter().zip(&want).enumerate() {
         let call = case.script[k];
         let ok = match (g, w) {
@@ -445,7 +451,7 @@ pub fn check(case: &Case, obs: &mut Obs) -> Result<(), Fail> {
         };
         if !ok {
             let sig = match (call, g, w) {
-                (CallKind::Finish, Ret::Fin { rc, .. }, Ret::Synth(88)) if *rc != 88 && matches!(case.variant, Variant::Paged | Variant::EntriesOnlyPaged) => "c10:paged-early-finish-stale-result".to_string(),
+                (CallKind::Finish, Ret::Fin { rc, .. }, Ret::Synth(88)) if *rc != 88 && matches!(case.variant, Variant::Paged | Variant::EntriesOnlyPaged | Variant::PagedEntriesOnly) => "c10:paged-early-finish-stale-result".to_string(),
                 (CallKind::State, Ret::State("Active"), Ret::State("Done")) if case.variant == Variant::Direct => "c10:direct-stream-never-done".to_string(),
                 (CallKind::State, _, _) => "c10:state".to_string(),
                 (CallKind::Next, _, _) => "c10:next".to_string(),
